@@ -237,7 +237,18 @@ def _py_arith(op, a, b):
     raise Unsupported("operator " + op)
 
 
+def _is_zero(x):
+    return not is_z3(x) and x == 0
+
+
 def _cx_arith(op, a, b):
+    # a purely real operand scales / divides component-wise (keeps the terms linear in the real factor)
+    if op == "*" and _is_zero(b.im):
+        return Cx(arith("*", a.re, b.re), arith("*", a.im, b.re))
+    if op == "*" and _is_zero(a.im):
+        return Cx(arith("*", a.re, b.re), arith("*", a.re, b.im))
+    if op == "/" and _is_zero(b.im):
+        return Cx(arith("/", a.re, b.re), arith("/", a.im, b.re))
     if op == "+":
         return Cx(arith("+", a.re, b.re), arith("+", a.im, b.im))
     if op == "-":
